@@ -11,6 +11,7 @@ import GojaModel.C13.Bridge
 import GojaModel.C13.Export
 import GojaModel.C13.MapModel
 import GojaModel.C13.Gateway
+import GojaModel.C13.GoSlice
 
 namespace GojaModel.C13.Driver
 open GojaModel.C13 GojaModel.Proto
@@ -313,6 +314,51 @@ def runJ (ws : List String) : String :=
        | .results first err => "first=" ++ (if first then "js" else "zero") ++ " err=" ++ (if err then "set" else "nil"))
   | _ => "BADLINE"
 
+/-! ### I: the plain []interface{} wrapper.  `I <p|v> <len0> <cells ('-' = nil)> | ops` -/
+
+def showCell : Option Val → String
+  | some v => showInt v
+  | none => "-"
+
+def dumpI (s : GS) (pre : String) : String :=
+  pre ++ "len=" ++ toString s.len ++ " s=[" ++ ",".intercalate ((List.range s.len).map (fun i => showCell (s.mem i))) ++ "]"
+
+def cell! (x : String) : Option Val := if x = "n" || x = "-" then none else some (int! x)
+
+def showGot (s : GS) (i : Nat) : String :=
+  if s.len ≤ i then "g=undefined " else match s.mem i with
+    | some v => "g=" ++ showInt v ++ " "
+    | none => "g=null "
+
+def runIOp (s : GS) (tok : String) : GS × String :=
+  match tok.splitOn ":" with
+  | ["get", i] => (s, showGot s (nat! i))
+  | ["set", i, x] => (s.step (.set (nat! i) (cell! x)), "")
+  | ["len", n] => (s.step (.setLen (nat! n)), "")
+  | ["del", i] => (s.step (.del (nat! i)), "")
+  | ["push", x] => (s.step (.set s.len (cell! x)), "")
+  | ["pop"] =>
+      if s.len = 0 then (s, "g=undefined ") else
+      let i := s.len - 1
+      ((s.step (.del i)).step (.setLen i), showGot s i)
+  | ["gt", n] => (s.step (.goTrunc (nat! n)), "")
+  | ["gs", n] => (s.step (.goReslice (nat! n)), "")
+  | ["ga", x] => (s.step (.goAppend (int! x)), "")
+  | ["gr", c] => (s.step (.goRealloc (nat! c)), "")
+  | ["gw", i, x] => (s.step (.goWrite (nat! i) (cell! x)), "")
+  | _ => (s, "BADOP ")
+
+def runI (ws : List String) : String :=
+  match ws with
+  | _ :: len0 :: cells :: "|" :: ops =>
+    let cs : List (Option Val) := if cells = "." then [] else (cells.splitOn ",").map cell!
+    let init : GS := { mem := fun i => (cs.getD i none), cap := cs.length, len := min (nat! len0) cs.length }
+    let (_, outs) := ops.foldl (fun (acc : GS × List String) tok =>
+        let (s', pre) := runIOp acc.1 tok
+        (s', dumpI s' pre :: acc.2)) (init, [])
+    " ; ".intercalate outs.reverse
+  | _ => "BADLINE"
+
 def handle (line : String) : String :=
   match words line with
   | "W" :: rest => runW rest
@@ -322,6 +368,7 @@ def handle (line : String) : String :=
   | "X" :: rest => runX rest
   | "M" :: rest => runM rest
   | "C" :: rest => runC rest
+  | "I" :: rest => runI rest
   | "J" :: rest => runJ rest
   | _ => "BADLINE"
 
